@@ -2,6 +2,7 @@ package main
 
 import (
 	"fmt"
+	"os"
 	"strings"
 
 	"verifharness/internal/wire"
@@ -10,6 +11,10 @@ import (
 // probe prints the hand-written regression cases of harness/corpus/C09/issue.*.ops (development
 // aid: `c09 probe > ../corpus/C09/issue.witnesses.ops`).
 func probe() {
+	if len(os.Args) > 2 && os.Args[2] == "authn" {
+		probeAuthn()
+		return
+	}
 	pods := []podSpec{{"zt", "istio-system", "u1", "ztunnel", "n1"}, {"p1", "a", "u2", "b", "n1"}, {"p2", "c", "u3", "d", "n2"}}
 	na := []string{"na", wire.EncList([]string{"istio-system/ztunnel"}), "1", "c1", encPods(pods)}
 	node := authOutcome{kind: "ok", ids: []string{"spiffe://cluster.local/ns/istio-system/sa/ztunnel"}, kube: kinfo("zt", "istio-system", "u1", "ztunnel")}
@@ -32,9 +37,35 @@ func probe() {
 		"spiffe://evil,victim.example.com/ns/a/sa/b",
 		"spiffe://cluster.local/ns/a/sa/b",
 		"spiffe://cluster.local/ns/c/sa/d",
+		"spiffe://other.td/ns/a/sa/b",
+		"spiffe://cluster.local/ns/a/sa/b/x",
+		"cluster.local/ns/a/sa/b",
 	} {
 		r := base()
 		r.imp = "s:" + wire.Enc(imp)
+		emit(r.line()...)
+	}
+	// every ingredient of the gate, one at a time: stale UID, other service account, unknown pod,
+	// untrusted account, other / unknown / ambiguous cluster
+	for i := 0; i < 7; i++ {
+		r := base()
+		r.imp = "s:" + wire.Enc("spiffe://cluster.local/ns/a/sa/b")
+		switch i {
+		case 0:
+			r.outs[0].kube.PodUID = "stale"
+		case 1:
+			r.outs[0].kube.PodServiceAccount = "d"
+		case 2:
+			r.outs[0].kube.PodName = "ghost"
+		case 3:
+			r.outs[0].kube = kinfo("p2", "c", "u3", "d")
+		case 4:
+			r.cluster = "c2"
+		case 5:
+			r.cluster = "-"
+		case 6:
+			r.cluster = "c1,c1"
+		}
 		emit(r.line()...)
 	}
 	// 2. authenticated identity containing a comma
@@ -108,5 +139,72 @@ func probe() {
 			r.outs = []authOutcome{{kind: "err"}, {kind: "ok", ids: []string{"a.b", "::ffff:1.2.3.4"}}, node}
 		}
 		emit(r.line()...)
+	}
+}
+
+func probeAuthn() {
+	emit := func(f ...string) { fmt.Println(strings.Join(f, " ")) }
+	e := wire.Enc
+	// finding F5: verified OIDC token whose sub has fewer than four fields (fixed by 90fe2f5)
+	emit("case", "0", "authn", "oidc-short-sub")
+	for _, sub := range []string{"system:serviceaccount:x", "system:serviceaccount", "system:serviceaccount:", "system:serviceaccountx",
+		"system:serviceaccount:ns1:sa1", "system:serviceaccount:ns1:sa1:extra", "system:serviceaccountfoo:a:b", "bar:foo", ""} {
+		emit("authn", "oidc", "cluster.local", "istio-ca", "ok", e(sub), "list", "istio-ca")
+	}
+	emit("authn", "oidc", "cluster.local", "istio-ca", "ok", e("system:serviceaccount:ns1:sa1"), "list", "x")
+	emit("authn", "oidc", "cluster.local", "istio-ca", "ok", e("system:serviceaccount:x"), "list", "x")
+	emit("authn", "oidc", "cluster.local", "istio-ca", "otherkey", e("system:serviceaccount:ns1:sa1"), "list", "istio-ca")
+	emit("authn", "oidc", "cluster.local", "istio-ca", "expired", e("system:serviceaccount:ns1:sa1"), "list", "istio-ca")
+	emit("authn", "oidc", "cluster.local", "istio-ca", "ok", e("system:serviceaccount:ns1:sa1"), "string", "istio-ca")
+	emit("authn", "oidc", "cluster.local", "istio-ca", "ok", "absent", "list", "istio-ca")
+	emit("authn", "oidc", "cluster.local", "istio-ca", "nohdr", "~", "list", "-")
+	emit("authn", "oidc", e("td@corp"), "-", "ok", e("system:serviceaccount:ns1:sa1"), "list", "istio-ca")
+	// XFCC: trusted / untrusted / loopback peers
+	emit("case", "1", "authn", "xfcc")
+	h := `URI=spiffe://cluster.local/ns/b/sa/c;DNS=foo.example.com;Subject="CN=bar,O=x"`
+	for _, p := range []string{"10.1.2.3:555", "11.1.2.3:555", "127.0.0.1:80", "[::1]:80", "[::ffff:10.1.2.3]:1", "10.1.2.3", "[fe80::1%eth0]:1"} {
+		emit("authn", "xfcc", e("10.0.0.0/8"), e(p), wire.EncList([]string{h}), parsedXFCC(h))
+	}
+	emit("authn", "xfcc", e("10.0.0.0/8"), "nopeer", wire.EncList([]string{h}), parsedXFCC(h))
+	emit("authn", "xfcc", e("10.0.0.0/8"), e("10.1.2.3:555"), "-", "err")
+	emit("authn", "xfcc", e("10.0.0.0/8"), e("10.1.2.3:555"), e("garbage"), parsedXFCC("garbage"))
+	// client certificate
+	emit("case", "2", "authn", "cert")
+	leaf := e("san:" + wire.EncList([]string{"U:spiffe://cluster.local/ns/a/sa/b", "D:foo.example.com"}))
+	other := e("san:" + wire.EncList([]string{"U:spiffe://cluster.local/ns/kube-system/sa/admin"}))
+	emit("authn", "cert", "tls", wire.EncList([]string{leaf + "|" + other, other}))
+	emit("authn", "cert", "tls", wire.EncList([]string{e("nosan") + "|" + other}))
+	emit("authn", "cert", "tls", wire.EncList([]string{e("bad")}))
+	emit("authn", "cert", "tls", "-")
+	emit("authn", "cert", "tls", "~")
+	emit("authn", "cert", "other", wire.EncList([]string{leaf}))
+	emit("authn", "cert", "noauth", wire.EncList([]string{leaf}))
+	emit("authn", "cert", "nopeer", wire.EncList([]string{leaf}))
+	// kube JWT
+	emit("case", "3", "authn", "kube")
+	good := reviewSpec{authenticated: true, groups: []string{"system:serviceaccounts", "system:authenticated"},
+		username: "system:serviceaccount:istio-system:ztunnel", podName: "=zt", podUID: "=u1"}
+	emit("authn", "kube", "cluster.local", "Kubernetes", "alias=remote1", "remote1", "-", "bearer", good.tok())
+	emit("authn", "kube", "cluster.local", "Kubernetes", "alias=remote1", "remote1", "alias", "bearer", good.tok())
+	emit("authn", "kube", "cluster.local", "Kubernetes", "alias=remote1", "remote1", "unknown", "bearer", good.tok())
+	emit("authn", "kube", "cluster.local", "Kubernetes", "-", "nil", "remote1", "bearer", good.tok())
+	emit("authn", "kube", "cluster.local", "Kubernetes", "-", "nil", "-", "none", good.tok())
+	for i := 0; i < 6; i++ {
+		r := good
+		switch i {
+		case 0:
+			r.authenticated = false
+		case 1:
+			r.groups = []string{"system:authenticated"}
+		case 2:
+			r.username = "system:serviceaccount:istio-system"
+		case 3:
+			r.username = "system:serviceaccount::ztunnel"
+		case 4:
+			r.errMsg = "expired"
+		case 5:
+			r.apiErr = true
+		}
+		emit("authn", "kube", "cluster.local", "Kubernetes", "-", "nil", "-", "bearer", r.tok())
 	}
 }
